@@ -425,6 +425,45 @@ def scan (f : M → Step) : List M → Nat → List M → Option (Option (List M
     | .replace m => some (some (setAt whole i m))
     | .abort => none
 
+/-- `m.markers if isinstance(m, MultiMarker) else [m]` -/
+def multiChildren : M → List M
+  | .multi xs => xs
+  | x => [x]
+/-- `m.markers if isinstance(m, MarkerUnion) else [m]` -/
+def unionChildren : M → List M
+  | .union xs => xs
+  | x => [x]
+
+/-- what `MultiMarker.of` (`isAnd`) / `MarkerUnion.of` does with one `mark` of `new_markers` and the
+    incoming `marker`: `combine` is `mark & marker` / `mark | marker`, `simplify` is
+    `mark.intersect_simplify(marker)` / `mark.union_simplify(marker)` -/
+def decideWith (isAnd : Bool) (combine : M → M → M) (simplify : M → M → Option M) (mark marker : M) : Step :=
+  if mark.isSingle then
+    let nm := combine mark marker
+    if (if isAnd then nm.isEmpty else nm.isAny) then .abort
+    else if nm.isSingle then .replace nm
+    else .next
+  else if (if isAnd then mark.isUnion else mark.isMulti) then
+    match simplify mark marker with
+    | some r => .replace r
+    | none => .next
+  else .next
+
+/-- body of the `for marker in old_markers` loop; the state is `new_markers`, `none` once the
+    absorbing element was produced (`return EmptyMarker()` / `return AnyMarker()`) -/
+def passStep (isAnd : Bool) (decide : M → M → Step) (flat : List M → List M)
+    (st : Option (List M)) (marker : M) : Option (List M) :=
+  match st with
+  | none => none
+  | some new =>
+    if memB marker new then some new
+    else if (if isAnd then marker.isAny else marker.isEmpty) then some new
+    else
+      match scan (fun mark => decide mark marker) new 0 new with
+      | none => none
+      | some (some new') => some (flat new')
+      | some none => some (new ++ [marker])
+
 /-- `while isinstance(unnormalized, (MultiMarker, MarkerUnion)) and len(unnormalized.markers) == 1` -/
 def unwrapSingletons : Nat → M → M
   | 0, m => m
@@ -476,25 +515,8 @@ def or : Nat → M → M → M
 def multiPass : Nat → List M → Option (List M)
   | 0, old => some old
   | fuel + 1, old =>
-    old.foldl (fun (st : Option (List M)) marker =>
-      match st with
-      | none => none
-      | some new =>
-        if memB marker new then some new
-        else if marker.isAny then some new
-        else
-          match scan (fun mark =>
-              if mark.isSingle then
-                let nm := and fuel mark marker
-                if nm.isEmpty then .abort else if nm.isSingle then .replace nm else .next
-              else if mark.isUnion then
-                match intersectSimplify fuel mark marker with
-                | some inter => .replace inter
-                | none => .next
-              else .next) new 0 new with
-          | none => none
-          | some (some new') => some (flattenInto true fuel new' [])
-          | some none => some (new ++ [marker])) (some [])
+    old.foldl (passStep true (decideWith true (and fuel) (intersectSimplify fuel))
+      (fun l => flattenInto true fuel l [])) (some [])
 
 /-- the `while old_markers != new_markers` loop -/
 def multiLoop : Nat → List M → List M → Option (List M)
@@ -523,25 +545,8 @@ def multiOf : Nat → List M → M
 def unionPass : Nat → List M → Option (List M)
   | 0, old => some old
   | fuel + 1, old =>
-    old.foldl (fun (st : Option (List M)) marker =>
-      match st with
-      | none => none
-      | some new =>
-        if memB marker new then some new
-        else if marker.isEmpty then some new
-        else
-          match scan (fun mark =>
-              if mark.isSingle then
-                let nm := or fuel mark marker
-                if nm.isAny then .abort else if nm.isSingle then .replace nm else .next
-              else if mark.isMulti then
-                match unionSimplify fuel mark marker with
-                | some u => .replace u
-                | none => .next
-              else .next) new 0 new with
-          | none => none
-          | some (some new') => some (flattenInto false fuel new' [])
-          | some none => some (new ++ [marker])) (some [])
+    old.foldl (passStep false (decideWith false (or fuel) (unionSimplify fuel))
+      (fun l => flattenInto false fuel l [])) (some [])
 
 def unionLoop : Nat → List M → List M → Option (List M)
   | 0, _, new => some new
@@ -624,9 +629,7 @@ def cnf : Nat → M → M
   | fuel + 1, m =>
     match m with
     | .union ms =>
-      let cnfs := ms.map (cnf fuel)
-      let lists := cnfs.map fun c => match c with | .multi xs => xs | x => [x]
-      multiOf fuel ((product lists).map (unionOfList fuel))
+      multiOf fuel ((product ((ms.map (cnf fuel)).map multiChildren)).map (unionOfList fuel))
     | .multi ms => multiOf fuel (ms.map (cnf fuel))
     | x => x
 
@@ -636,9 +639,7 @@ def dnf : Nat → M → M
   | fuel + 1, m =>
     match m with
     | .multi ms =>
-      let dnfs := ms.map (dnf fuel)
-      let lists := dnfs.map fun c => match c with | .union xs => xs | x => [x]
-      unionOfList fuel ((product lists).map (multiOf fuel))
+      unionOfList fuel ((product ((ms.map (dnf fuel)).map unionChildren)).map (multiOf fuel))
     | .union ms => unionOfList fuel (ms.map (dnf fuel))
     | x => x
 
@@ -865,6 +866,25 @@ def evalAny (env : Env) : List M → Option Bool
   | m :: ms => match eval env m with
     | some false => evalAny env ms
     | r => r
+end
+
+/-! ### total Boolean semantics (for the theorems): an atom that raises counts as false -/
+
+mutual
+def sem (env : Env) : M → Bool
+  | .any => true
+  | .empty => false
+  | .expr a => (a.eval env).getD false
+  | .eqU n vs => match env n with | some (.str s) => vs.contains s | _ => false
+  | .neM n vs => match env n with | some (.str s) => !vs.contains s | _ => false
+  | .multi ms => semAll env ms
+  | .union ms => semAny env ms
+def semAll (env : Env) : List M → Bool
+  | [] => true
+  | m :: ms => sem env m && semAll env ms
+def semAny (env : Env) : List M → Bool
+  | [] => false
+  | m :: ms => sem env m || semAny env ms
 end
 
 end M
